@@ -37,14 +37,23 @@ class ConstSource(Source):
         return f"const({self.key}={self.values} <- {self.parent})"
 
 
+_described = {}
+
+
 def describe_finder(obj) -> Source:
+    """One Source object per Finder instance (FindInAll groups typed searches by Finder instance)."""
+    if id(obj) in _described:
+        return _described[id(obj)][1]
     name = type(obj).__name__
     if name == "FindInPaths":
-        return PathsSource(getattr(obj, "config_name", None))
-    if name == "FindInConstants":
+        src = PathsSource(getattr(obj, "config_name", None))
+    elif name == "FindInConstants":
         parent = getattr(obj, "parent_source", None)
-        return ConstSource(obj.key, obj.values, describe_finder(parent) if parent is not None else None)
-    raise RuntimeError(f"unsupported finder kind in configuration: {name}")
+        src = ConstSource(obj.key, obj.values, describe_finder(parent) if parent is not None else None)
+    else:
+        raise RuntimeError(f"unsupported finder kind in configuration: {name}")
+    _described[id(obj)] = (obj, src)   # keeps obj alive so that its id stays unique
+    return src
 
 
 def probe_sources(model) -> Dict[str, Optional[Source]]:
